@@ -123,20 +123,16 @@ def load_corpus(prop):
 def check_one(prop, case, prog):
     if prop == "C01":
         return rt.c01_check(case)
-    if prop in ("C07", "C03"):
+    if prop == "C03":
+        return rt.c03_check(case, prog)
+    if prop == "C07":
         return rt.c07_check(case, prog)
     if prop == "C19":
         return rt.c19_check(case, prog)
     raise ValueError(prop)
 
 
-KIND_FILTER = {
-    # which oracle outcomes belong to which property (both C03 and C07 run rt.c07_check)
-    "C03": {"valid-edit-rejected", "write-after-edit-failed", "edit-not-written", "unexplained-change",
-            "title-not-written", "card-count-changed", "token-count-changed"},
-    "C07": {"untouched-token-respelled", "unexplained-change", "comments-changed", "title-changed",
-            "message-changed", "card-count-changed", "token-count-changed"},
-}
+KIND_FILTER = {}
 
 
 def run_rt(ctx, prop, n_quick, n_thorough, gen_opts=None, with_edits=True):
@@ -192,8 +188,7 @@ def run_rt(ctx, prop, n_quick, n_thorough, gen_opts=None, with_edits=True):
                 return rr is not None and sig(rr) == want and len(rr.get("diffs") or []) <= len(r.get("diffs") or [1])
             small = case
             try:
-                if not prog:
-                    small = rt.shrink_text(case, failing)
+                small = rt.shrink_text(case, failing)
             except Exception:
                 small = case
             # shrink the program
